@@ -459,8 +459,12 @@ class NDNApp:
         name = Name.normalize(name)
         del self._prefix_tree[name]
         try:
-            await self.express_interest(make_command('rib', 'unregister', self.face, name=name), lifetime=1000)
-            return True
+            _, _, reply = await self.express_interest(
+                make_command('rib', 'unregister', self.face, name=name), lifetime=1000)
+            try:
+                return parse_response(reply)['status_code'] == 200
+            except (DecodeError, ValueError, IndexError, TypeError, struct.error):
+                return False
         except (InterestNack, InterestTimeout, InterestCanceled, ValidationFailure):
             return False
 
